@@ -562,6 +562,8 @@ class Interp:
 
     def exec_for(self, st, env):
         it = self.eval(st.iter, env)
+        if isinstance(it, Const) and not isinstance(it.v, (str, bytes)):
+            raise AbstractRaise("TypeError", st, detail="%r object is not iterable" % type(it.v).__name__)
         if isinstance(it, IterV):
             it = ListObj(it.drain())
         c = self.w.concretise_iter(self, it, st)
@@ -970,8 +972,10 @@ class Interp:
                 return r
             return obj.items[self.list_index(obj, key, node)]
         if isinstance(obj, TupleV):
-            if isinstance(key, Const) and isinstance(key.v, int) and -len(obj.items) <= key.v < len(obj.items):
-                return obj.items[key.v]
+            if isinstance(key, Const) and isinstance(key.v, int) and not isinstance(key.v, bool):
+                if -len(obj.items) <= key.v < len(obj.items):
+                    return obj.items[key.v]
+                raise AbstractRaise("IndexError", node, detail="tuple index %d out of range (length %d)" % (key.v, len(obj.items)))
             raise Unsupported(node, "tuple index")
         if isinstance(obj, DictObj):
             k = self.dict_key(key, node)
@@ -1171,6 +1175,8 @@ class Interp:
                 return self.call_function(f.fn, env)
             finally:
                 self.depth -= 1
+        if isinstance(f, Const):
+            raise AbstractRaise("TypeError", e, detail="%r is not callable" % (f.v,))
         return self.w.call(self, f, args, kwargs, e)
 
     def _seq(self, a, node):
